@@ -173,9 +173,20 @@ def refusal_cases(rep, svh, rng, gates, count):
         if kind in ('M', 'MX', 'MY'):
             ts = [rng.randrange(n) for _ in range(rng.choice([1, 2, 3]))]
             basis = {'M': 'Z', 'MX': 'X', 'MY': 'Y'}[kind]
+            inv = [rng.random() < 0.3 for _ in ts]
+            active = [q for q in range(n) if bits[q] != '_']
+            if active and rng.random() < 0.4:
+                # the only target the string can anticommute with is written with an inverted result
+                q0 = rng.choice(active)
+                others = [q for q in range(n) if bits[q] in ('_', basis) and q != q0]
+                ts = [q0] + ([rng.choice(others)] if others and rng.random() < 0.5 else [])
+                inv = [True] + [rng.random() < 0.3 for _ in ts[1:]]
+                if rng.random() < 0.5:
+                    ts.reverse()
+                    inv.reverse()
             bad = any(bits[q] not in ('_', basis) for q in ts)
             ea = eb = ('ERR' if bad else p)
-            txt = '%s %s' % (kind, ' '.join(('!' if rng.random() < 0.2 else '') + str(q) for q in ts))
+            txt = '%s%s %s' % (kind, '(0.01)' if rng.random() < 0.15 else '', ' '.join(('!' if i else '') + str(q) for q, i in zip(ts, inv)))
         elif kind in ('R', 'RX', 'RY', 'MR', 'MRX', 'MRY'):
             ts = [rng.randrange(n) for _ in range(rng.choice([1, 2]))]
             basis = {'R': 'Z', 'RX': 'X', 'RY': 'Y', 'MR': 'Z', 'MRX': 'X', 'MRY': 'Y'}[kind]
@@ -188,7 +199,7 @@ def refusal_cases(rep, svh, rng, gates, count):
                 for q in ts:
                     l[1 + q] = '_'
                 eb = ''.join(l)
-            txt = '%s %s' % (kind, ' '.join(map(str, ts)))
+            txt = '%s %s' % (kind, ' '.join(('!' if kind.startswith('M') and rng.random() < 0.3 else '') + str(q) for q in ts))
         elif kind == 'MPP':
             prods = []
             bad = False
